@@ -139,3 +139,42 @@ def names_augmented(fn: Fn, op) -> List[str]:
             if c and c not in out:
                 out.append(c)
     return out
+
+
+def named_conditions(fn: Fn) -> dict:
+    """local name -> the boolean expression it names, for locals assigned exactly once in fn from a comparison /
+    and-or / not expression (`emit = flag and a == b`).  Naming a decision is a behaviour-preserving edit: rules that
+    inspect a test look through such names."""
+    defs, counts = {}, {}
+    for n in fn.direct_nodes():
+        tg = val = None
+        if isinstance(n, ast.Assign) and len(n.targets) == 1 and isinstance(n.targets[0], ast.Name):
+            tg, val = n.targets[0].id, n.value
+        elif isinstance(n, ast.AnnAssign) and isinstance(n.target, ast.Name) and n.value is not None:
+            tg, val = n.target.id, n.value
+        elif isinstance(n, (ast.AugAssign, ast.NamedExpr)) and isinstance(getattr(n, "target", None), ast.Name):
+            counts[n.target.id] = counts.get(n.target.id, 0) + 2
+        if tg is not None:
+            counts[tg] = counts.get(tg, 0) + 1
+            defs[tg] = val
+    nl = set()
+    for n in fn.direct_nodes():
+        if isinstance(n, (ast.Nonlocal, ast.Global)):
+            nl |= set(n.names)
+    return {k: v for k, v in defs.items() if counts.get(k) == 1 and k not in fn.params and k not in nl
+            and (isinstance(v, (ast.BoolOp, ast.Compare)) or (isinstance(v, ast.UnaryOp) and isinstance(v.op, ast.Not)))}
+
+
+def effective_test(fn: Fn, test: ast.AST, depth: int = 3) -> ast.AST:
+    """`test` with named conditions replaced by the expressions they name."""
+    defs = named_conditions(fn)
+    if not defs or depth <= 0 or not any(isinstance(x, ast.Name) and x.id in defs for x in ast.walk(test)):
+        return test
+    import copy
+
+    class _S(ast.NodeTransformer):
+        def visit_Name(self, n):
+            if isinstance(n.ctx, ast.Load) and n.id in defs:
+                return copy.deepcopy(defs[n.id])
+            return n
+    return effective_test(fn, _S().visit(copy.deepcopy(test)), depth - 1)
